@@ -45,6 +45,17 @@ where fields : Nat → List String → Option (AFields × List String)
     | none => none
   | _, _ => none
 
+mutual
+def hasAny : ATy → Bool
+  | .any => true
+  | .struct _ fs => hasAnyF fs
+  | .seqOf _ e => hasAny e
+  | _ => false
+def hasAnyF : AFields → Bool
+  | .nil => false
+  | .cons _ t rest => hasAny t || hasAnyF rest
+end
+
 def showOID (a : List Nat) : String := if a.isEmpty then "O-" else "O" ++ ".".intercalate (a.map toString)
 
 mutual
@@ -90,13 +101,28 @@ where go : List String → String
           let rt := match marshalField d t p v with
             | .ok b => hexOrDash b
             | .error _ => "err"
-          -- self-check of the Canon recogniser (CTV.Props.C10.marshal_parse proves this can never print)
+          -- self-check of the Canon recogniser (the full `marshal_parse` is not a theorem yet (Props/C10.lean, FULL block): this evaluates it on every accepted input)
           let consumed := bs.take (bs.length - rest.length)
           let canonBroken := match parseField d .canon t p bs with
             | .ok (_, rest') => !(rest'.length == rest.length && rt == hexOrDash consumed)
             | .error _ => false
           if canonBroken then "MODEL-CANON-BROKEN"
           else joinSp (["ok"] ++ showVal t v ++ ["|", hexOrDash rest, "|", rt])
+    | _ => "bad-op"
+  | "c" :: params :: rest =>
+    -- Canon recogniser against the implementation: `1` iff the input is in the canonical form for the type,
+    -- which the implementation shows by Marshal(Unmarshal(input)) = the consumed octets
+    match parseTy rest with
+    | some (t, [hx]) =>
+      match fromHex hx with
+      | none => "bad-op"
+      | some bs =>
+        let p := parseFieldParameters (if params = "-" then "" else params)
+        -- Canon excludes interface{} targets altogether (declared incompleteness, notes/C10.md): no opinion there
+        if hasAny t then "skip" else
+        match parseField Dialect.fork .canon t p bs with
+        | .ok _ => "1"
+        | .error _ => "0"
     | _ => "bad-op"
   | _ => "bad-op"
 
